@@ -30,7 +30,9 @@ CONSTANTS
                     \*   serialized nor deserialized
   KF_MapSlices,     \* TRUE = as shipped: index slices are not compared with the base buffer (assert only)
   KF_FixedLen,      \* TRUE = as shipped: fixed_buffer<T> accepts any wire length
-  KF_ArrayWalk      \* TRUE = as shipped: after a failed claim of an array<Msg> the elements are still walked
+  KF_ArrayWalk,     \* TRUE = as shipped: after a failed claim of an array<Msg> the elements are still walked
+  KF_Checksum       \* TRUE = as shipped: the checksum field is the running hash, so what is hashed before the
+                    \*   body cancels out: only the body is protected
 
 MAXW == 1000000000  \* how any wire value >= 2^31 is logged / modelled ("larger than any input")
 
@@ -134,7 +136,7 @@ WalkElems(elems, e, wi, parent, pes) ==
 
 Dfs(msg) == WalkFs(msg.fs, 1, 1, FALSE, 0, 0, 1).ls      \* leaves in declaration order; leaf i has wi = i
 NW(msg) == Len(Dfs(msg))
-HonestW(msg) == [i \in 1..NW(msg) |-> Dfs(msg)[i].n]
+HonestW(msg) == LET dfs == Dfs(msg) IN [i \in 1..Len(dfs) |-> dfs[i].n]
 \* the map field of a message (the scope has at most one, at top level or embedded)
 RECURSIVE MapsOf(_, _)
 MapsOf(fs, i) == IF i > Len(fs) THEN <<>>
@@ -146,8 +148,8 @@ HonestSL(msg) == IF MapsOf(msg.fs, 1) = <<>> THEN <<>> ELSE MapsOf(msg.fs, 1)[1]
 \* second pass = everything else, embedded messages expanded in place      (rpc/serialize.h:419-422, 469-472)
 IsAligned(L) == L.k \in {"abuf", "aiov"}
 Skipped(L) == KF_NestedAligned /\ IsAligned(L) /\ L.nested
-Order(msg) == SelectSeq(Dfs(msg), LAMBDA L : IsAligned(L) /\ ~L.nested)
-           \o SelectSeq(Dfs(msg), LAMBDA L : ~(IsAligned(L) /\ ~L.nested))
+OrderOf(dfs) == SelectSeq(dfs, LAMBDA L : IsAligned(L) /\ ~L.nested) \o SelectSeq(dfs, LAMBDA L : ~(IsAligned(L) /\ ~L.nested))
+Order(msg) == OrderOf(Dfs(msg))
 
 (* ------------------------------------------------------------------ *)
 (* Serialize: pieces, flat layout, byte ids                            *)
@@ -155,10 +157,10 @@ Order(msg) == SelectSeq(Dfs(msg), LAMBDA L : IsAligned(L) /\ ~L.nested)
 SerLen(L) == IF Skipped(L) THEN 0 ELSE L.n
 RECURSIVE SumLens(_, _)
 SumLens(ord, k) == IF k = 0 THEN 0 ELSE SerLen(ord[k]) + SumLens(ord, k - 1)
-VarLen(msg) == SumLens(Order(msg), Len(Order(msg)))
+VarLen(msg) == LET ord == Order(msg) IN SumLens(ord, Len(ord))
 FlatLen(msg) == VarLen(msg) + msg.S
 IndexIn(ord, wi) == CHOOSE k \in 1..Len(ord) : ord[k].wi = wi
-StartPos(msg) == LET ord == Order(msg) IN [i \in 1..NW(msg) |-> SumLens(ord, IndexIn(ord, i) - 1)]
+StartPos(msg) == LET ord == Order(msg) IN [i \in 1..Len(ord) |-> SumLens(ord, IndexIn(ord, i) - 1)]
 \* pieces pushed by SerializerIOV (empty buffers are not pushed; an iovec_array pushes its elements)
 RECURSIVE PiecesOf(_, _)
 PiecesOf(ord, k) ==
@@ -191,7 +193,7 @@ StepLeaf(st, L, W) ==
        THEN [st EXCEPT !.crashed = TRUE]          \* walks elements at address 0 + i*sizeof(T)   (serialize.h:325)
        ELSE st
   ELSE IF L.dep # 0 /\ L.ei > ElemCount(L, W) THEN st
-  ELSE IF Skipped(L) THEN [st EXCEPT !.res[L.wi] = R("wire", 0, w)]
+  ELSE IF Skipped(L) THEN [st EXCEPT !.res[L.wi] = IF w = 0 THEN R("empty", 0, 0) ELSE R("wire", 0, w)]
   ELSE IF L.k \in {"iov", "aiov"}
   THEN \* DeserializerIOV::process_field(iovec_array&): extract_front(summed_size, &view)   (serialize.h:446)
        IF w = 0 THEN [st EXCEPT !.res[L.wi] = [R("iov", 0, 0) EXCEPT !.pieces = <<>>]]
@@ -212,33 +214,41 @@ Run(ord, k, st, W) == IF k > Len(ord) THEN st ELSE Run(ord, k + 1, StepLeaf(st, 
 
 \* a slice (offset is signed, length unsigned) lies inside a base buffer of B bytes
 InB(off, len, B) == off >= 0 /\ len >= 0 /\ off + len <= B
-SliceOK(sl, B) == InB(sl[1], sl[2], B) /\ InB(sl[3], sl[4], B)
+\* a key is an rpc::string with its terminator (length >= 1: comparisons look at size()-1 bytes)
+SliceOK(sl, B) == InB(sl[1], sl[2], B) /\ sl[2] >= 1 /\ InB(sl[3], sl[4], B)
 \* index entries the receiver will look at: floor(wire index length / entry size)
-MapIdx(msg) == CHOOSE i \in 1..NW(msg) : Dfs(msg)[i].k = "idx"
-HasMap(msg) == \E i \in 1..NW(msg) : Dfs(msg)[i].k = "idx"
-MapEntries(msg, W) == W[MapIdx(msg)] \div Dfs(msg)[MapIdx(msg)].es
-BadSlices(msg, W, SL) ==
-  IF ~HasMap(msg) THEN {}
-  ELSE {e \in 1..MapEntries(msg, W) : e > Len(SL) \/ ~SliceOK(SL[e], W[MapIdx(msg) + 1])}
+MapIdxOf(dfs) == CHOOSE i \in 1..Len(dfs) : dfs[i].k = "idx"
+HasMapOf(dfs) == \E i \in 1..Len(dfs) : dfs[i].k = "idx"
+MapIdx(msg) == MapIdxOf(Dfs(msg))
+HasMap(msg) == HasMapOf(Dfs(msg))
+BadSlicesOf(dfs, W, SL) ==
+  IF ~HasMapOf(dfs) THEN {}
+  ELSE LET mi == MapIdxOf(dfs)  cnt == W[mi] \div dfs[mi].es  B == W[mi + 1] IN
+       {e \in 1..cnt : e > Len(SL) \/ ~SliceOK(SL[e], B)}
+BadSlices(msg, W, SL) == BadSlicesOf(Dfs(msg), W, SL)
 
-InitSt(msg, els) == [els |-> els, failed |-> FALSE, crashed |-> FALSE, res |-> [i \in 1..NW(msg) |-> Unset]]
+InitStN(n, els) == [els |-> els, failed |-> FALSE, crashed |-> FALSE, res |-> [i \in 1..n |-> Unset]]
+InitSt(msg, els) == InitStN(NW(msg), els)
 \* what deserialize() does once every field has been visited (slices are validated by the repaired code only)
-Finish(msg, st, W, SL) ==
-  IF ~KF_MapSlices /\ ~st.failed /\ ~st.crashed /\ BadSlices(msg, W, SL) # {} THEN [st EXCEPT !.failed = TRUE] ELSE st
+FinishOf(dfs, st, W, SL) ==
+  IF ~KF_MapSlices /\ ~st.failed /\ ~st.crashed /\ BadSlicesOf(dfs, W, SL) # {} THEN [st EXCEPT !.failed = TRUE] ELSE st
+Finish(msg, st, W, SL) == FinishOf(Dfs(msg), st, W, SL)
 Outcome(st) == IF st.crashed THEN "crash" ELSE IF st.failed THEN "fail" ELSE "ok"
 
 \* positions hashed by validate_checksum(): what is left in the iovector after the body was taken, then the body
-Covered(els, bpos, S, p) == (\E k \in 1..Len(els) : els[k].o <= p /\ p < els[k].o + els[k].n) \/ (bpos <= p /\ p < bpos + S)
+Covered(els, bpos, S, p) == (~KF_Checksum /\ \E k \in 1..Len(els) : els[k].o <= p /\ p < els[k].o + els[k].n)
+                            \/ (bpos <= p /\ p < bpos + S)
 
 \* DeserializerIOV::deserialize<T>(iov): part = lengths of the iovec elements supplied; alt = position of a byte
 \* that differs from what the sender produced, or -1 (the sender's checksum is over every byte it sent, with the
 \* checksum field itself zero: add_checksum, serialize.h:261)
-Deserialize(msg, W, SL, part, alt) ==
+Deser(msg, W, SL, part, alt) ==
   LET b == BackCont(PartEls(part), msg.S) IN      \* iov->extract_back<T>()
   IF ~b.ok THEN [out |-> "fail", body |-> R("null", 0, msg.S), res |-> <<>>]
   ELSE IF msg.ck /\ alt >= 0 /\ Covered(b.els, b.pos, msg.S, alt)             \* validate_checksum (serialize.h:266)
   THEN [out |-> "fail", body |-> R(b.where, b.pos, msg.S), res |-> <<>>]
-  ELSE LET st == Finish(msg, Run(Order(msg), 1, InitSt(msg, b.els), W), W, SL) IN
+  ELSE LET dfs == Dfs(msg)
+           st == FinishOf(dfs, Run(OrderOf(dfs), 1, InitStN(Len(dfs), b.els), W), W, SL) IN
        [out |-> Outcome(st), body |-> R(b.where, b.pos, msg.S), res |-> st.res]
 
 (* ------------------------------------------------------------------ *)
@@ -255,19 +265,21 @@ FieldDelivered(L, r, sp) ==
   IF L.k \in {"iov", "aiov"}
   THEN r.where = "iov" /\ r.len = L.n /\ (L.n = 0 \/ Consecutive(r.pieces, 1, sp) = sp + L.n)
   ELSE IF L.n = 0 THEN r.where = "empty" /\ r.len = 0
-  ELSE r.where \in {"in", "copy"} /\ r.len = L.n /\ r.pos = sp
+  ELSE r.where \in {"in", "copy"} /\ r.len = L.n /\ (r.pos = sp \/ (r.where = "copy" /\ r.pos = -2))   \* -2: recorded copy whose source is ambiguous
 RoundTripBad(msg, d) ==       \* set of word indexes whose field did not arrive (0 = whole message refused)
   IF d.out # "ok" THEN {0}
-  ELSE {i \in 1..NW(msg) : ~FieldDelivered(Dfs(msg)[i], d.res[i], StartPos(msg)[i])}
+  ELSE LET dfs == Dfs(msg)  sp == StartPos(msg) IN
+       {i \in 1..Len(dfs) : ~FieldDelivered(dfs[i], d.res[i], sp[i])}
 \* the same, phrased on byte ids (used by the model checker to show both formulations agree)
-ContentIds(msg, r) == IF r.where \in {"in", "copy"} THEN SubSeq(FlatIds(msg), r.pos + 1, r.pos + r.len)
+ContentIds(ids, r) == IF r.where \in {"in", "copy"} THEN SubSeq(ids, r.pos + 1, r.pos + r.len)
                       ELSE IF r.where = "iov" THEN
                         LET RECURSIVE C(_)  C(k) == IF k > Len(r.pieces) THEN <<>>
-                               ELSE SubSeq(FlatIds(msg), r.pieces[k].o + 1, r.pieces[k].o + r.pieces[k].n) \o C(k + 1) IN C(1)
+                               ELSE SubSeq(ids, r.pieces[k].o + 1, r.pieces[k].o + r.pieces[k].n) \o C(k + 1) IN C(1)
                       ELSE <<>>
 RoundTripIdsOK(msg, d) ==
-  d.out = "ok" /\ \A i \in 1..NW(msg) : d.res[i].where \in {"in", "copy", "iov", "empty"}
-                                        /\ ContentIds(msg, d.res[i]) = [j \in 1..Dfs(msg)[i].n |-> <<i, j>>]
+  LET dfs == Dfs(msg)  ids == FlatIds(msg) IN
+  d.out = "ok" /\ \A i \in 1..Len(dfs) : d.res[i].where \in {"in", "copy", "iov", "empty"}
+                                        /\ ContentIds(ids, d.res[i]) = [j \in 1..dfs[i].n |-> <<i, j>>]
 
 \* HostileContained: failure, or every variable-length field lies inside the supplied bytes (one supplied
 \* element, or a buffer of exactly that size made by the deserializer) and every map slice inside its base
@@ -283,7 +295,8 @@ ExtentOK(L, r, els) ==
 HostileBad(msg, W, SL, part, d) ==     \* set of problems; {} = contained
   IF d.out = "crash" THEN {"crash"}
   ELSE IF d.out = "fail" THEN {}
-  ELSE {<<"field", i>> : i \in {j \in 1..NW(msg) : ~ExtentOK(Dfs(msg)[j], d.res[j], PartEls(part))}}
-       \cup {<<"slice", e>> : e \in BadSlices(msg, W, SL)}
+  ELSE LET dfs == Dfs(msg)  els == PartEls(part) IN
+       {<<"field", i>> : i \in {j \in 1..Len(dfs) : ~ExtentOK(dfs[j], d.res[j], els)}}
+       \cup {<<"slice", e>> : e \in BadSlicesOf(dfs, W, SL)}
 
 =============================================================================
